@@ -102,7 +102,7 @@ def gen_case(rng, quick, force=None):
         train_idx, test_idx = idx[:ntr], idx[:ntr]
     case = dict(X=X.tolist(), Y=Y.tolist(), measure=measure, est=est, alpha=alpha, mode=mode,
                 train_idx=train_idx, test_idx=test_idx, family=fam, width=width,
-                scaler=rng.choice(["none", "explicit"]))
+                scaler=rng.choice(["none", "explicit", "duck"]))
     tr, _ = resolve_split(case)
     kmax = len(tr)
     r = rng.random()
@@ -140,10 +140,28 @@ def make_estimator(case):
     return None
 
 
+class DuckScaler:
+    """a user scaler that merely 'implements fit/transform' (what the docstrings ask for): not a
+    sklearn BaseEstimator, so it cannot be cloned; numerically the default scaler."""
+
+    def __init__(self):
+        from skmatter.preprocessing import StandardFlexibleScaler
+        self._s = StandardFlexibleScaler()
+
+    def fit(self, X, y=None):
+        self._s.fit(X)
+        return self
+
+    def transform(self, X):
+        return self._s.transform(X)
+
+
 def make_scaler(case):
     if case["scaler"] == "explicit":
         from skmatter.preprocessing import StandardFlexibleScaler
         return StandardFlexibleScaler()
+    if case["scaler"] == "duck":
+        return DuckScaler()
     return None
 
 
@@ -402,6 +420,13 @@ def _oracle(case, rec, rng_seed=0, deep=True):
         v = call_measure(case, X=c1 * X + rr.normal(size=p), Y=c2 * Y + rr.normal(size=q))
         if not same(v, pw):
             return "%s changes under uniform rescaling / shift" % case["measure"]
+        # a large common offset (1e6 x the spread): the measures must not lose it numerically
+        big = 1e6 * max(1e-300, float(np.std(X)))
+        bigy = 1e6 * max(1e-300, float(np.std(Y)))
+        v = call_measure(case, X=X + big, Y=Y - bigy)
+        va, vb = np.ravel(v), np.ravel(pw)
+        if not (va.shape == vb.shape and bool(np.all(np.abs(va - vb) <= 1e-7 + 2e-6 * np.maximum(np.abs(va), np.abs(vb))))):
+            return "%s changes under a large uniform shift (offset 1e6 x spread)" % case["measure"]
         # target rotation (fixed regularisation)
         if case["measure"] != "grd" or p >= q:
             Rq = _orth(prng, q)
